@@ -363,6 +363,9 @@ int SQLITE3::Handle::close()
 {
   if (_stmt)
     sqlite3_finalize(_stmt);
+  /* the statement is gone: forget it (the destructor and every later call would free it again) */
+  _stmt = nullptr;
+  _stmt_status = STMT_NEW;
   int r = sqlite3_close(_db);
   _db = nullptr;
   _path.clear();
